@@ -45,7 +45,12 @@ let do_eq (txt : string) : string =
     let n = List.length qs in
     let bodies = List.map (fun d -> d.td_body) qs in
     let names = List.map (fun d -> TName (d.td_name, d.td_mode)) qs in
-    let matrix l = String.concat "" (List.concat_map (fun a -> List.map (fun b -> bit_of (m_equal_type defs a b)) l) l) in
+    (* TcDeps.eq_ty with one outer fuel >= eq_fuel of every pair (shared: building the unary number
+       once per case instead of once per pair); the diagonal also goes through TcDeps.equal_type itself *)
+    let fuel = m_pool_fuel defs (bodies @ names) in
+    let matrix l = String.concat "" (List.concat_map (fun a -> List.map (fun b ->
+        if a == b then (let x = bit_of (m_equal_type defs a b) and y = bit_of (m_equal_with fuel defs a b) in if x = y then x else "X")
+        else bit_of (m_equal_with fuel defs a b)) l) l) in
     let strs = List.map (fun t -> hex (implode (m_print_type t)) ^ ":" ^ hex (implode (m_print_with_modality t)) ^ ":" ^ hex (implode (m_print_outer t)) ^ ":" ^ hex (implode (dump_type t))) bodies in
     "OK\t" ^ string_of_int n ^ "\t" ^ matrix bodies ^ "\t" ^ matrix names ^ "\t" ^ String.concat " " strs ^ "\t" ^ round_trip txt qs
     ^ "\tWF=" ^ (if m_wf_env defs then "1" else "0")
